@@ -10,7 +10,7 @@ def chist_slack():
 def viol(res, r, what, clause, **facts):
     f = dict(clause=clause, client=r.kind)
     f.update(facts)
-    res.violations.append(dict(what=what, case=dict(client=r.kind, connect_disconnects=r.connect_disconnects, ops=r.log, detail=facts), facts=f))
+    res.violations.append(dict(what=what, case=dict(client=r.kind, connect_disconnects=r.connect_disconnects, disconnect_disconnects=getattr(r, 'disconnect_disconnects', False), ops=r.log, detail=facts), facts=f))
 
 
 def flat(r):
@@ -97,27 +97,32 @@ def message_in_flight(r, step):
     return any(o[0] == 'ev' and not isinstance(o[1], str) and o[1][0] == 'disconnect' for o in r.outs[step])
 
 
+def failureish(op):
+    return (op[0] in ('adv', 'wsclose') or (op[0] == 'reply' and op[2][0] != 'ok') or (op[0] == 'wsframe' and op[1][0] == 'garbage') or
+            (op[0] == 'reply' and op[2][0] == 'ok' and any(p[0] == 'open' for p in op[2][1][1:])) or
+            (op[0] == 'reply' and op[2][0] == 'ok' and len(op[2][1]) > 16))
+
+
 def allowed_reasons(r, step):
     op = r.log[step]
     if op[0] == 'call' and op[1] == 'disconnect':
         return {'client disconnect'}
-    if op[0] == 'call' and op[1] == 'connect':
-        return {'client disconnect', 'server disconnect', 'transport error'}
-    pk = []
-    if op[0] == 'reply' and op[2][0] == 'ok':
-        pk = op[2][1]
-    if op[0] == 'wsframe' and op[1][0] == 'pk':
-        pk = [op[1][1]]
+    # the connection this event ends began with the latest connect event
+    begun = max([i for i, o in flat(r) if i <= step and o[0] == 'ev' and o[1] == 'connect'] or [0])
     out = set()
+    pk = pkts_of(op)
     if any(p[0] == 'close' for p in pk):
         out.add('server disconnect')
-    if any(p[0] == 'msg' and p[2] == 'disc' for p in pk) or r.connect_disconnects:
+    if r.connect_disconnects and any(o[0] == 'ev' and o[1] == 'connect' for o in r.outs[step]):
         out.add('client disconnect')
-    if not out or op[0] in ('adv', 'wsclose') or (op[0] == 'reply' and op[2][0] != 'ok') or (op[0] == 'wsframe' and op[1][0] == 'garbage'):
-        out.add('transport error')
     # a message handler calling disconnect() runs in its own task and may end the connection in a later step
-    if any(o2[0] == 'msg' and o2[2] == 'disc' for o in r.log[:step + 1] for o2 in pkts_of(o)):
+    if any(p[0] == 'msg' and p[2] == 'disc' for o in r.log[begun:step + 1] for p in pkts_of(o)):
         out.add('client disconnect')
+    # something must have gone wrong with the transport of this connection for a transport error
+    if any(failureish(o) for o in r.log[begun:step + 1]) or (op[0] == 'call' and op[1] == 'connect'):
+        out.add('transport error')
+    if op[0] == 'call' and op[1] == 'connect':
+        out |= {'client disconnect', 'server disconnect'}
     return out
 
 
